@@ -19,6 +19,7 @@ From BU Require Import Gen.Nets Address.Address Wif.Wif HD.HD NoPanic.AddressNP 
 From BU Require Import Merkle.Merkle Merkle.ExtractTop NoPanic.MerkleNP Bloom.Bloom NoPanic.BloomNP.
 From BU Require Import Gcs.Gcs NoPanic.GcsNP.
 From BU Require Import Bloom.BloomTx Bloom.BloomTxSpec Bloom.BloomTxInst Props.C10.
+From BU Require Import Gen.Kernels2 NoPanic.SourceNP.
 
 (* ---------------- CashAddr: DecodeCashAddress, encode ---------------- *)
 Theorem C08_DecodeCashAddress_no_panic : forall str, is_panic (decode_cashaddr str) = false.
@@ -223,6 +224,39 @@ Theorem C08_scan_cost_old_refuted :
     (s_calls st > length txs + total_inputs txs)%nat.
 Proof. exact C10_scan_cost_old_refuted. Qed.
 Print Assumptions C08_scan_cost_old_refuted.
+
+(* ---------------- review round 2: no panic of the MACHINE-TRANSLATED source ---------------- *)
+(* Gen/Kernels2.v = the Go functions translated from their ASTs on every run, every indexing, slicing,
+   make and integer division a checked primitive (Panic when Go would panic); Tie/Kernels2_*.v prove them
+   equal to the models.  Unlike the `_bounds` statements above (which see only the integer literals of the
+   source) these break when an operator, a bound expression or the order of two statements changes *)
+Theorem C08_DecodeCashAddress_source_no_panic : forall str, is_panic (Kernels2.DecodeCashAddress str) = false.
+Proof. exact SourceNP.DecodeCashAddress_src_no_panic. Qed.
+Print Assumptions C08_DecodeCashAddress_source_no_panic.
+
+Theorem C08_bech32_Decode_source_no_panic : forall bech, is_panic (Kernels2.Decode bech) = false.
+Proof. exact SourceNP.bech32_Decode_src_no_panic. Qed.
+Print Assumptions C08_bech32_Decode_source_no_panic.
+
+Theorem C08_bech32_Encode_source_no_panic : forall hrp data,
+  Bytes hrp -> Bytes data -> is_panic (Kernels2.Encode hrp data) = false.
+Proof. exact SourceNP.bech32_Encode_src_no_panic. Qed.
+Print Assumptions C08_bech32_Encode_source_no_panic.
+
+(* the inner `for remFromBits > 0` loop is a while loop in the translation: 8 iterations of fuel always
+   suffice (running out of fuel would be Panic 9), i.e. ConvertBits terminates for EVERY fromBits/toBits *)
+Theorem C08_bech32_ConvertBits_source_no_panic : forall fuel data fromBits toBits pad,
+  (8 <= fuel)%nat -> is_panic (Kernels2.ConvertBits fuel data fromBits toBits pad) = false.
+Proof. exact SourceNP.bech32_ConvertBits_src_no_panic. Qed.
+Print Assumptions C08_bech32_ConvertBits_source_no_panic.
+
+(* Filter.matches / Filter.add of the translated source on every filter-load within the wire limits *)
+Theorem C08_bloom_source_no_panic : forall m data,
+  Bytes data -> N.of_nat (length data) < 2 ^ 32 -> within_wire_limits m ->
+  is_panic (Kernels2.Filter_matches false (m_bytes m) (m_nhash m) (m_tweak m) data) = false /\
+  is_panic (Kernels2.Filter_add false (m_bytes m) (m_nhash m) (m_tweak m) data) = false.
+Proof. exact SourceNP.bloom_src_no_panic. Qed.
+Print Assumptions C08_bloom_source_no_panic.
 
 (* the statements are not vacuous: a 5-bit payload encodes, and the resulting string decodes back
    (so the no-panic theorems cover the accepting path as well as the rejecting ones) *)
